@@ -447,7 +447,7 @@ class PODReader(Reader):
         tic = datetime.datetime.now()
         scan_rate = datetime.timedelta(milliseconds=1/self.scan_freq).total_seconds()
         sgeom = avhrr_gac(missed_utcs.astype(datetime.datetime),
-                          self.lonlat_sample_points, frequency=scan_rate)
+                          self.scan_points[self.lonlat_sample_points], frequency=scan_rate)
         t0 = missed_utcs[0].astype(datetime.datetime)
         s_times = sgeom.times(t0)
         tle1, tle2 = self.get_tle_lines()
